@@ -2,6 +2,7 @@ import YProofs.Lemmas.GeoSquare
 import YProofs.Lemmas.GeoBonds
 import YProofs.Lemmas.GeoContainer
 import YProofs.Lemmas.GeoPattern
+import YProofs.Lemmas.GeoCount
 /-!
 # C20 — Lattice geometry is a consistent indexing of the square lattice
 
@@ -571,5 +572,154 @@ example : (Rect.mk? [[0, 1], [1, 0]]).toOption.map (·.sites) = some [(0, 0), (0
     (Rect.mk? [[0, 1, 2], [1, 2, 0], [2, 0, 1]]).toOption.map (·.sites) = some [(0, 0), (0, 1), (0, 2)] ∧
     (match Rect.mk? [[0, 1], [1, 1]] with | .error .neighbors => true | _ => false) = true ∧
     (match Rect.mk? [[0, 1], [1]] with | .error .notMatrix => true | _ => false) = true := by decide
+
+
+/-- **bonds_once** (counts): number of listed bonds per boundary type, for all `Nx ≥ 1`, `Ny`:
+`h`: `Nx·Ny` (infinite), `Nx·(Ny−1)` (obc, cylinder); `v`: `Nx·Ny` (infinite, cylinder), `(Nx−1)·Ny` (obc). -/
+theorem bonds_count (g : Sq) (hx : 0 < g.Nx) :
+    (g.bondsH.length = match g.bd with
+      | .infinite => g.Nx * g.Ny
+      | .obc => g.Nx * (g.Ny - 1)
+      | .cylinder => g.Nx * (g.Ny - 1)) ∧
+    (g.bondsV.length = match g.bd with
+      | .infinite => g.Nx * g.Ny
+      | .obc => (g.Nx - 1) * g.Ny
+      | .cylinder => g.Nx * g.Ny) :=
+  ⟨g.length_bondsH hx, g.length_bondsV hx⟩
+
+example : (⟨3, 4, .cylinder⟩ : Sq).bondsH.length = 9 ∧ (⟨3, 4, .cylinder⟩ : Sq).bondsV.length = 12 ∧
+    (⟨3, 4, .obc⟩ : Sq).bondsV.length = 8 := by decide
+
+/-! ## remaining lattice classes: listed bonds, one neighbourhood per unique tensor -/
+
+theorem Sq.isNN_infinite {g : Sq} (hb : g.bd = .infinite) (s0 s1 : Site) (d : Dir) :
+    g.isNN s0 s1 d = decide (s1 = (s0.1 + d.vec.1, s0.2 + d.vec.2)) := by
+  unfold Sq.isNN
+  rw [Sq.nnSite_infinite hb, Sq.nnSite_infinite hb, Dir.opp_vec]
+  by_cases h : s1 = (s0.1 + d.vec.1, s0.2 + d.vec.2)
+  · subst h
+    simp only [beq_self_eq_true, Bool.true_and, decide_true]
+    have : ((s0.1 + d.vec.1, s0.2 + d.vec.2).1 + (-d.vec.1, -d.vec.2).1, (s0.1 + d.vec.1, s0.2 + d.vec.2).2 + (-d.vec.1, -d.vec.2).2) = s0 := by
+      ext <;> simp <;> omega
+    rw [this]; simp
+  · have : ¬ (s0.1 + d.vec.1, s0.2 + d.vec.2) = s1 := fun e => h e.symm
+    simp [h, this]
+
+/-- **bonds_nn_ordered** for bond lists built on an infinite lattice from an arbitrary list of sites
+(`RectangularUnitcell._bonds_h/_bonds_v`): lattice order `'lr'`/`'tb'` and strictly f-ordered -/
+theorem bondsTo_infinite_nn_ordered (g : Sq) (hb : g.bd = .infinite) (ss : List Site) (b : Bond) :
+    (b ∈ g.bondsTo .r ss → b.1 ∈ ss ∧ b.2 = (b.1.1, b.1.2 + 1) ∧ g.nnBondDirn b.1 b.2 = some .lr ∧
+      fOrdered b.1 b.2 = true ∧ fOrdered b.2 b.1 = false) ∧
+    (b ∈ g.bondsTo .b ss → b.1 ∈ ss ∧ b.2 = (b.1.1 + 1, b.1.2) ∧ g.nnBondDirn b.1 b.2 = some .tb ∧
+      fOrdered b.1 b.2 = true ∧ fOrdered b.2 b.1 = false) := by
+  constructor
+  · intro h
+    obtain ⟨hs, hn⟩ := Sq.mem_bondsTo.mp h
+    rw [Sq.nnSite_infinite hb] at hn
+    have e : b.2 = (b.1.1, b.1.2 + 1) := by
+      have := (Option.some.inj hn).symm
+      rw [this]; ext <;> simp [Dir.vec]
+    refine ⟨hs, e, ?_, ?_, ?_⟩
+    · unfold Sq.nnBondDirn
+      rw [Sq.isNN_infinite hb, e]
+      simp [Dir.vec]
+    · rw [fOrdered_iff, e]; simp only []; omega
+    · rw [Bool.eq_false_iff, e]; intro hh; rw [fOrdered_iff] at hh; simp only [] at hh; omega
+  · intro h
+    obtain ⟨hs, hn⟩ := Sq.mem_bondsTo.mp h
+    rw [Sq.nnSite_infinite hb] at hn
+    have e : b.2 = (b.1.1 + 1, b.1.2) := by
+      have := (Option.some.inj hn).symm
+      rw [this]; ext <;> simp [Dir.vec]
+    refine ⟨hs, e, ?_, ?_, ?_⟩
+    · unfold Sq.nnBondDirn
+      rw [Sq.isNN_infinite hb, Sq.isNN_infinite hb, e]
+      simp only [Dir.vec, Prod.mk.injEq]
+      simp only [Int.add_zero]
+      have : ¬ (b.1.1 + 1 = b.1.1 ∧ b.1.2 = b.1.2 + 1) := by omega
+      simp [this]
+    · rw [fOrdered_iff, e]; simp only []; exact Or.inr ⟨trivial, by omega⟩
+    · rw [Bool.eq_false_iff, e]; intro hh; rw [fOrdered_iff] at hh; simp only [] at hh; omega
+
+/-- RectangularUnitcell: one horizontal and one vertical bond per unique site, no duplicates -/
+theorem rect_bonds (r : Rect) (hs : r.sites.Nodup) :
+    r.bondsH.Nodup ∧ r.bondsV.Nodup ∧ r.bondsH.length = r.sites.length ∧ r.bondsV.length = r.sites.length := by
+  have key : ∀ d : Dir, (r.base.bondsTo d r.sites).length = r.sites.length := by
+    intro d
+    unfold Sq.bondsTo
+    have : ∀ d : Dir, (fun s => (r.base.nnSite s d.vec).map fun s' => (s, s')) =
+        (some ∘ fun s => (s, ((s.1 + d.vec.1, s.2 + d.vec.2) : Site))) := by
+      intro d; funext s; rw [Sq.nnSite_infinite rfl]; rfl
+    rw [this, List.filterMap_eq_map, List.length_map]
+  exact ⟨Sq.bondsTo_nodup hs, Sq.bondsTo_nodup hs, key .r, key .b⟩
+
+/-- the fixed bond tables of CheckerboardLattice and of the 3-site TriangularLattice (finite tables): lattice order,
+strictly f-ordered, one bond per pair of tensor indices; diagonal bonds join `'tr'` neighbours -/
+theorem table_bonds_nn_ordered :
+    (∀ b ∈ cbBondsH, cbBase.nnBondDirn b.1 b.2 = some .lr ∧ fOrdered b.1 b.2 = true ∧ fOrdered b.2 b.1 = false) ∧
+    (∀ b ∈ cbBondsV, cbBase.nnBondDirn b.1 b.2 = some .tb ∧ fOrdered b.1 b.2 = true ∧ fOrdered b.2 b.1 = false) ∧
+    (cbBondsH.map fun b => (cbIndex b.1, cbIndex b.2)).Nodup ∧ (cbBondsV.map fun b => (cbIndex b.1, cbIndex b.2)).Nodup ∧
+    (∀ b ∈ triBondsH3, (⟨3, 3, .infinite⟩ : Sq).nnBondDirn b.1 b.2 = some .lr ∧ fOrdered b.1 b.2 = true ∧ fOrdered b.2 b.1 = false) ∧
+    (∀ b ∈ triBondsV3, (⟨3, 3, .infinite⟩ : Sq).nnBondDirn b.1 b.2 = some .tb ∧ fOrdered b.1 b.2 = true ∧ fOrdered b.2 b.1 = false) ∧
+    (∀ b ∈ triBondsD3, (⟨3, 3, .infinite⟩ : Sq).nnSite b.1 Dir.tr.vec = some b.2 ∧ fOrdered b.1 b.2 = true ∧ fOrdered b.2 b.1 = false) ∧
+    (∀ l ∈ [triBondsH3, triBondsV3, triBondsD3],
+      (l.map fun b => ((⟨⟨3, 3, .infinite⟩, false⟩ : Tri).index b.1, (⟨⟨3, 3, .infinite⟩, false⟩ : Tri).index b.2)).Nodup) := by
+  decide
+
+/-- **one neighbourhood per unique tensor** (SquareLattice, any boundary; also `full_patch` triangular): if two sites
+have the same tensor index, so have their images under any shift — hence, with `nnSite_consistent_index`, the
+neighbours returned by `nn_site` in any direction carry the same tensor index. -/
+theorem index_shift_invariant (g : Sq) (s s' : Site) (d : Int × Int) (h : g.site2index s = g.site2index s') :
+    g.site2index (s.1 + d.1, s.2 + d.2) = g.site2index (s'.1 + d.1, s'.2 + d.2) := by
+  rw [site2index_period_iff] at h ⊢
+  unfold Sq.congruent at h ⊢
+  obtain ⟨h1, h2⟩ := h
+  have e1 : s.1 + d.1 - (s'.1 + d.1) = s.1 - s'.1 := by omega
+  have e2 : s.2 + d.2 - (s'.2 + d.2) = s.2 - s'.2 := by omega
+  constructor
+  · split
+    · rename_i hc; rw [if_pos hc] at h1; simp only []; omega
+    · rename_i hc; rw [if_neg hc] at h1; simp only []; rw [e1]; exact h1
+  · split
+    · rename_i hc; rw [if_pos hc] at h2; simp only []; rw [e2]; exact h2
+    · rename_i hc; rw [if_neg hc] at h2; simp only []; omega
+
+theorem nn_index_consistent (g : Sq) (hx : 0 < g.Nx) (s s' t t' : Site) (d : Int × Int)
+    (h : g.site2index s = g.site2index s') (ht : g.nnSite s d = some t) (ht' : g.nnSite s' d = some t') :
+    g.site2index t = g.site2index t' := by
+  rw [nnSite_consistent_index g hx s t d ht, nnSite_consistent_index g hx s' t' d ht']
+  exact index_shift_invariant g s s' d h
+
+/-- one neighbourhood per unique tensor, checkerboard and 3-site triangular index -/
+theorem cb_tri_index_shift (g : Sq) (s : Site) (d : Int × Int) :
+    cbIndex (s.1 + d.1, s.2 + d.2) = (cbIndex s + d.1 + d.2) % 2 ∧
+    (⟨g, false⟩ : Tri).index (s.1 + d.1, s.2 + d.2) = ((⟨g, false⟩ : Tri).index s + d.2 - d.1) % 3 := by
+  simp only [cbIndex, Tri.index, Bool.false_eq_true, if_false]
+  omega
+
+
+example : (Rect.mk? [[0, 1], [1, 0]]).toOption.map (fun r => (r.bondsH, r.bondsV)) =
+    some ([((0, 0), (0, 1)), ((0, 1), (0, 2))], [((0, 0), (1, 0)), ((0, 1), (1, 1))]) := by decide
+example : (⟨2, 2, .infinite⟩ : Sq).site2index (0, 1) = (⟨2, 2, .infinite⟩ : Sq).site2index (2, -1) ∧
+    (⟨2, 2, .infinite⟩ : Sq).site2index (1, 1) = (⟨2, 2, .infinite⟩ : Sq).site2index (3, -1) := by decide
+
+/-!
+## Not proved at full strength (kept visible)
+
+* `rect_one_neighbourhood` (full statement): for an accepted pattern, **every two sites of ℤ²** with the same label have
+  the same 4-neighbour labels:
+  `Rect.mk? pat = .ok r → r.index s = r.index s' → r.index s ≠ none → patEnv r.pat r.Nx r.Ny s = patEnv r.pat r.Nx r.Ny s'`.
+  Proved (`pattern_valid_iff`): the same statement for all sites of the unit cell (`PatConsistent`), together with
+  `patIndex_periods` (the label is invariant under the cell periods); the reduction of `patEnv` modulo the periods is not
+  carried out in Lean.  The check evaluates the full statement on the real class over a window of two periods (oracle
+  `two-neighbourhoods`).
+* `rect_sites_once` (full statement): `Rect.mk? pat = .ok r → (r.sites.map r.index).Nodup ∧ ∀ s, r.index s ∈ r.sites.map r.index`
+  (one listed site — the tuple-minimal one — per label).  Proved: `rect_bonds` under the hypothesis `r.sites.Nodup`,
+  `bondsTo_infinite_nn_ordered` for arbitrary site lists.  The check evaluates the full statement on the real class for every
+  accepted pattern of the enumeration (oracles `sites-index-dup`, `sites-missing-index`).
+* `sites_sorted_fOrdered` holds for SquareLattice / Checkerboard / Triangular; `RectangularUnitcell` lists its unique sites
+  in tuple (row-major) order, which is *not* the fermionic order (e.g. `[[0,1],[2,3]]`: `(0,1)` before `(1,0)`); the
+  property does not demand it and the check only records it.
+-/
 
 end YModel.Geo
